@@ -1,0 +1,104 @@
+//go:build verif
+// +build verif
+
+package jet
+
+import (
+	"fmt"
+	"io"
+	"io/ioutil"
+	"reflect"
+	"sync"
+	"sync/atomic"
+)
+
+// Verification hooks: with the "verif" build tag every linearization point of the interpreter
+// reports an event and a projection of the Runtime's state to an installed tracer. The hooks only
+// observe; they never change what the interpreter does.
+const verifOn = true
+
+// VerifEvent is what a tracer receives.
+type VerifEvent struct {
+	Rt      uint64        // identity of the Runtime
+	Seq     uint64        // per-process sequence number
+	Ev      string        // event name
+	Depth   int           // length of the scope chain
+	Ctx     string        // digest of '.'
+	Content bool          // a yield content closure is bound
+	Writer  string        // "out" (the writer given to Execute) | "buf" (a try buffer) | "discard" | "other"
+	OutLen  int           // bytes in the writer given to Execute, if it has a Len() method (-1 otherwise)
+	Args    []interface{} // event arguments
+}
+
+var (
+	verifTracer atomic.Value // func(VerifEvent)
+	verifSeq    uint64
+	verifTop    sync.Map // *Runtime -> io.Writer given to Execute
+	verifIDs    sync.Map // *Runtime -> uint64
+	verifNextID uint64
+)
+
+// VerifSetTracer installs (or, with nil, removes) the tracer.
+func VerifSetTracer(f func(VerifEvent)) {
+	if f == nil {
+		verifTracer.Store((func(VerifEvent))(nil))
+		return
+	}
+	verifTracer.Store(f)
+}
+
+func verifDigest(v reflect.Value) string {
+	if !v.IsValid() {
+		return "<invalid>"
+	}
+	defer func() { recover() }()
+	s := fmt.Sprintf("%s:%v", v.Kind(), v)
+	if len(s) > 40 {
+		s = s[:40]
+	}
+	return s
+}
+
+func vt(st *Runtime, ev string, args ...interface{}) {
+	f, _ := verifTracer.Load().(func(VerifEvent))
+	if f == nil {
+		return
+	}
+	e := VerifEvent{Ev: ev, Seq: atomic.AddUint64(&verifSeq, 1), Args: args, OutLen: -1}
+	if st != nil {
+		id, ok := verifIDs.Load(st)
+		if !ok {
+			id, _ = verifIDs.LoadOrStore(st, atomic.AddUint64(&verifNextID, 1))
+		}
+		e.Rt = id.(uint64)
+		if ev == "exec.begin" {
+			verifTop.Store(st, st.Writer)
+		}
+		for sc := st.scope; sc != nil; sc = sc.parent {
+			e.Depth++
+		}
+		e.Ctx = verifDigest(st.context)
+		e.Content = st.content != nil
+		top, _ := verifTop.Load(st)
+		var w io.Writer
+		if st.escapeeWriter != nil {
+			w = st.Writer
+		}
+		switch {
+		case w != nil && w == top:
+			e.Writer = "out"
+		case w == ioutil.Discard:
+			e.Writer = "discard"
+		default:
+			if _, isBuf := w.(interface{ Len() int }); isBuf {
+				e.Writer = "buf"
+			} else {
+				e.Writer = "other"
+			}
+		}
+		if l, ok := top.(interface{ Len() int }); ok {
+			e.OutLen = l.Len()
+		}
+	}
+	f(e)
+}
